@@ -77,6 +77,7 @@ type dt1 struct {
 	labelOf  map[*cfg.Block]string
 	setFn    *core.Func
 	expandFn *core.Func
+	depth    int
 }
 
 func (d *dt1) isPeField(e ast.Expr, field string) bool {
@@ -206,6 +207,8 @@ func (d *dt1) events(b *cfg.Block) (ev []string, term string) {
 					ev = append(ev, "WORD")
 				case fo != nil && d.c.P.FuncOf(fo) == d.setFn:
 					ev = append(ev, "SET")
+				case fo != nil && d.helperOf(fo, m) != nil:
+					ev = append(ev, d.summary(d.helperOf(fo, m), m)...)
 				case strings.HasSuffix(name, "(*field).join") && len(m.Args) == 2:
 					a := ast.Unparen(m.Args[0])
 					switch {
@@ -216,6 +219,16 @@ func (d *dt1) events(b *cfg.Block) (ev []string, term string) {
 					}
 				}
 			case *ast.ReturnStmt:
+				if len(m.Results) == 1 {
+					// `return helper(…)`: the helper's events (collected at the call) and
+					// either of its outcomes; error propagation is not an outcome of its own
+					if call, ok := ast.Unparen(m.Results[0]).(*ast.CallExpr); ok {
+						if fo := core.StaticCallee(d.info, call); fo != nil && d.helperOf(fo, call) != nil {
+							term = "OK"
+						}
+					}
+					return true
+				}
 				if len(m.Results) != 2 {
 					return true
 				}
@@ -226,14 +239,23 @@ func (d *dt1) events(b *cfg.Block) (ev []string, term string) {
 				case isErrVar(d.info, r):
 					term = "PROPAGATE"
 				default:
-					if cl, ok := r.(*ast.CompositeLit); ok && strings.HasSuffix(namedTypeName(d.info.Types[cl].Type), "ParamExpError") {
-						msg := ""
-						for _, el := range cl.Elts {
-							if kv, ok := el.(*ast.KeyValueExpr); ok && exprStr(kv.Key) == "Msg" {
-								if s, ok := constStr(d.info, kv.Value); ok {
-									msg = s
-								} else {
-									msg = "<word>"
+					cl, isLit := r.(*ast.CompositeLit)
+					msgOf := func(e ast.Expr) string {
+						if s, ok := constStr(d.info, e); ok {
+							return s
+						}
+						return "<word>"
+					}
+					ctorMsg, isCtor := "", false
+					if call, ok := r.(*ast.CallExpr); ok && !isLit {
+						ctorMsg, isCtor = d.errorCtorMsg(call, msgOf)
+					}
+					if isCtor || (isLit && strings.HasSuffix(namedTypeName(d.info.Types[cl].Type), "ParamExpError")) {
+						msg := ctorMsg
+						if isLit {
+							for _, el := range cl.Elts {
+								if kv, ok := el.(*ast.KeyValueExpr); ok && exprStr(kv.Key) == "Msg" {
+									msg = msgOf(kv.Value)
 								}
 							}
 						}
@@ -267,6 +289,30 @@ func (d *dt1) events(b *cfg.Block) (ev []string, term string) {
 							hasParam = true
 						}
 					}
+					// the same through a helper of the package that joins the value it is handed
+					if fo := core.StaticCallee(d.info, call); fo != nil && identOf(rs.Value) != nil {
+						if h := d.c.P.FuncOf(fo); h != nil && h.Pkg == d.f.Pkg && h.Body != nil && h.Decl != nil && h != d.f && h.Type.Params != nil {
+							k := 0
+							for _, fld := range h.Type.Params.List {
+								for _, nm := range fld.Names {
+									if k < len(call.Args) {
+										if id, ok := ast.Unparen(call.Args[k]).(*ast.Ident); ok && d.info.Uses[id] != nil && d.info.Uses[id] == d.info.Defs[identOf(rs.Value)] {
+											hp := h.Info().Defs[nm]
+											ast.Inspect(h.Body, func(y ast.Node) bool {
+												if jc, ok := y.(*ast.CallExpr); ok && strings.HasSuffix(calleeName(h.Info(), jc), "(*field).join") && len(jc.Args) == 2 {
+													if jid, ok := ast.Unparen(jc.Args[0]).(*ast.Ident); ok && h.Info().Uses[jid] == hp && hp != nil {
+														hasParam = true
+													}
+												}
+												return true
+											})
+										}
+									}
+									k++
+								}
+							}
+						}
+					}
 				}
 				return true
 			})
@@ -279,6 +325,108 @@ func (d *dt1) events(b *cfg.Block) (ev []string, term string) {
 		}
 	}
 	return
+}
+
+// helperOf returns the private helper of expandParam that a call hands the
+// ParamExp to (code moved out of expandParam), nil for anything else.
+func (d *dt1) helperOf(fo *types.Func, call *ast.CallExpr) *core.Func {
+	h := d.c.P.FuncOf(fo)
+	if h == nil || h == d.f || h == d.expandFn || h == d.setFn || h.Pkg != d.f.Pkg || h.Body == nil || h.Decl == nil || h.Obj == nil || h.Obj.Exported() {
+		return nil
+	}
+	if d.depth >= 2 {
+		return nil
+	}
+	for _, a := range call.Args {
+		if id, ok := ast.Unparen(a).(*ast.Ident); ok && d.info.Uses[id] == d.peObj && d.peObj != nil {
+			return h
+		}
+	}
+	return nil
+}
+
+// summary lists the events a helper can produce (every block, in source
+// order, terminals ignored): what matters to the table is which effects a
+// path through expandParam can have, and a helper's effects are the same
+// wherever it is written.
+func (d *dt1) summary(h *core.Func, call *ast.CallExpr) []string {
+	hd := &dt1{c: d.c, f: h, info: h.Info(), caseTag: map[ast.Expr]ast.Expr{}, labelOf: map[*cfg.Block]string{}, setFn: d.setFn, expandFn: d.expandFn, depth: d.depth + 1}
+	// the helper's ParamExp parameter
+	k := 0
+	for _, fld := range h.Type.Params.List {
+		for _, nm := range fld.Names {
+			if k < len(call.Args) {
+				if id, ok := ast.Unparen(call.Args[k]).(*ast.Ident); ok && d.info.Uses[id] == d.peObj {
+					hd.peObj = hd.info.Defs[nm]
+				}
+			}
+			k++
+		}
+	}
+	g := cfg.New(h.Body, core.MayReturn(hd.info))
+	var out []string
+	seen := map[string]bool{}
+	for _, b := range g.Blocks {
+		if !b.Live {
+			continue
+		}
+		ev, _ := hd.events(b)
+		for _, e := range ev {
+			if !seen[e] {
+				seen[e] = true
+				out = append(out, e)
+			}
+		}
+	}
+	return out
+}
+
+// errorCtorMsg recognises a call of a function of the package whose body is
+// `return ParamExpError{…, Msg: <parameter>}` and returns the message the
+// call passes.
+func (d *dt1) errorCtorMsg(call *ast.CallExpr, msgOf func(ast.Expr) string) (string, bool) {
+	fo := core.StaticCallee(d.info, call)
+	if fo == nil {
+		return "", false
+	}
+	h := d.c.P.FuncOf(fo)
+	if h == nil || h.Pkg != d.f.Pkg || h.Body == nil || len(h.Body.List) != 1 {
+		return "", false
+	}
+	ret, ok := h.Body.List[0].(*ast.ReturnStmt)
+	if !ok || len(ret.Results) != 1 {
+		return "", false
+	}
+	e := ast.Unparen(ret.Results[0])
+	if u, ok := e.(*ast.UnaryExpr); ok && u.Op == token.AND {
+		e = u.X
+	}
+	cl, ok := e.(*ast.CompositeLit)
+	if !ok || !strings.HasSuffix(namedTypeName(h.Info().Types[cl].Type), "ParamExpError") {
+		return "", false
+	}
+	for _, el := range cl.Elts {
+		kv, ok := el.(*ast.KeyValueExpr)
+		if !ok || exprStr(kv.Key) != "Msg" {
+			continue
+		}
+		if s, ok := constStr(h.Info(), kv.Value); ok {
+			return s, true
+		}
+		if id, ok := ast.Unparen(kv.Value).(*ast.Ident); ok {
+			k := 0
+			for _, fld := range h.Type.Params.List {
+				for _, nm := range fld.Names {
+					if h.Info().Defs[nm] == h.Info().Uses[id] && k < len(call.Args) {
+						return msgOf(call.Args[k]), true
+					}
+					k++
+				}
+			}
+		}
+		return "<word>", true
+	}
+	return "", true
 }
 
 func identOf(e ast.Expr) *ast.Ident {
